@@ -8,9 +8,9 @@ HARNESS = "harness/C11.c"
 SRCS = None            # the terminal needs the whole library
 LEVEL = "proof"
 RULE = ("case = (sink, history) with sink in output-function / descriptor (packet-mode pipe, one packet per write(2)) / both / "
-        "neither and history over set_output_buffer(n), flush, tickit_termdrv_write_str (explicit length, length 0 = strlen, "
+        "neither and history over set_output_func (set / remove), set_output_fd (set / remove),  set_output_buffer(n), flush, tickit_termdrv_write_str (explicit length, length 0 = strlen, "
         "length shorter than the string), tickit_termdrv_write_strf, tickit_term_print, set_output_func, set_output_fd; a final "
-        "flush is appended. Observation = the chunks delivered during each operation (bytes and boundaries). Exhaustive part: "
+        "flush is appended. Observation = the chunks delivered during each operation, each tagged with the sink that received it (bytes, boundaries, sink). Exhaustive part: "
         "buffer sizes 0..6 x up to 4 writes of lengths 0..8 x every flush mask (flush or not after each write), all bytes of a "
         "history distinct; plus sizes 0..6 x 2 writes x 5 call variants each x lengths 0..8 x flush masks. Random part: sizes "
         "around 1..10, 63..65, 4095..4097 and up to 10000, write lengths aimed at space-1/space/space+1, whole multiples of the "
@@ -18,8 +18,8 @@ RULE = ("case = (sink, history) with sink in output-function / descriptor (packe
         "the property: model comparison only). A case is non-trivial when at least one byte is written; distinct = distinct "
         "(sink, per-operation signature: kind, how the write length compares with the free space, number of buffer ends it "
         "straddles capped at 3).")
-ASSUMPTIONS = ["the buffer size is changed only while nothing is pending (stated in the property)",
-               "an output function or descriptor is set (without either, term.c drops the bytes; modelled, not part of the claim)",
+ASSUMPTIONS = ["the buffer size and the active sink (function if set, else descriptor) change only while nothing is pending (the property fixes the configuration while output is pending)",
+               "requests made while neither an output function nor a descriptor is set are outside the claim (term.c drops or keeps the bytes; modelled and compared, not judged)",
                "write(2) on the descriptor is not short and does not fail (term.c ignores its result; not modelled)",
                "malloc of the output buffer does not fail",
                "callers pass a readable string: len bytes, or NUL-terminated when len is 0"]
@@ -82,10 +82,41 @@ def gen(tier, seed, info):
                 for mask in range(4):
                     m += 1
                     yield history(cap, lens, mask, kinds)
+    # exhaustive 3: sink configurations: function only, descriptor only, both (builder: descriptor
+    # then function), both set afterwards in either order; and changes of the active sink between
+    # writes with nothing pending
+    q = 0
+    setups = [("f", []), ("d", []), ("b", []), ("n", ["D1", "O1"]), ("n", ["O1", "D1"])]
+    slens = (0, 1, 2, 3, 4, 5, 7)
+    for sink, pre in setups:
+        for cap in range(5):
+            for lens in itertools.product(slens, repeat=2):
+                for mask in range(4):
+                    q += 1
+                    toks = [sink] + pre + ["B%d" % cap]
+                    a = 0
+                    for i, ln in enumerate(lens):
+                        toks.append(write_tok("R", ln, a)); a += 7 * ln
+                        if mask >> i & 1:
+                            toks.append("F")
+                    yield " ".join(toks)
+    changes = [("b", ["O0", "O1"]), ("b", ["D0", "D1"]), ("f", ["D1", "O0"]), ("d", ["O1", "O0"]),
+               ("b", ["O0", "D0"]), ("n", ["D1", "O1"]), ("d", ["O1", "D0"]), ("f", ["O0", "O1"])]
+    for sink, (c1, c2) in changes:
+        for cap in range(5):
+            for lens in itertools.product(range(6), repeat=3):
+                q += 1
+                yield " ".join([sink, "B%d" % cap, write_tok("R", lens[0], 0), "F", c1,
+                                write_tok("R", lens[1], 50), "F", c2, write_tok("R", lens[2], 100)])
     info["exhaustive"] = True
+    info["sink_scope_cases"] = q
     info["exhaustive_scope"] = ("buffer sizes 0..6 x k<=4 writes (explicit length) of lengths 0..8 x all 2^k flush masks (%d cases); "
-                                "sizes 0..6 x 2 writes x 5x5 call variants x lengths 0..8 x 4 flush masks (%d cases)" % (n, m))
-    info["exhaustive_cases"] = n + m
+                                "sizes 0..6 x 2 writes x 5x5 call variants x lengths 0..8 x 4 flush masks (%d cases); "
+                                "sink configurations f / d / both (builder) / both set later in either order x sizes 0..4 x 2 writes of "
+                                "lengths {0,1,2,3,4,5,7} x flush masks, and 8 sequences of two sink changes (function or descriptor "
+                                "removed / added, active sink changing or not) after flushes x sizes 0..4 x 3 writes of 0..5 bytes (%d cases)"
+                                % (n, m, q))
+    info["exhaustive_cases"] = n + m + q
     rnd = random.Random(seed * 7919 + 11)
     nrand = 6000 if quick else 150000
     nbig = 150 if quick else 3000
@@ -165,6 +196,47 @@ def gen(tier, seed, info):
     for _ in range(nfd):
         kinds["descriptor"] += 1
         yield random_history("d", big=True, maxlen=4000, maxchunks=150, maxcap=4096)
+    # both sinks / sink changes (random): reconfiguration after a flush (in scope) or with bytes
+    # pending (outside the property: model comparison only)
+    def mixed_history(in_scope):
+        sink = rnd.choice("bbbfdn")
+        func, fd = sink in "fb", sink in "db"
+        cap = min(pick_cap(False), 300)
+        toks = [sink, "B%d" % cap]
+        pend, a = 0, rnd.randint(0, 254)
+        for _ in range(rnd.randint(2, 12)):
+            r = rnd.random()
+            if r < 0.5:
+                ln = min(pick_len(cap, pend, False, 600), 600)
+                if cap and ln // cap > 150:
+                    ln = cap * 150
+                toks.append(write_tok(rnd.choice(WRITE_KINDS), ln, a))
+                a += 7 * ln
+                pend = (pend + ln) % cap if cap else 0
+            elif r < 0.65:
+                toks.append("F"); pend = 0
+            elif r < 0.72:
+                if pend and in_scope:
+                    toks.append("F")
+                cap = min(pick_cap(False), 300)
+                toks.append("B%d" % cap); pend = 0
+            else:
+                t = rnd.choice(["O0", "O1", "D0", "D1"])
+                if in_scope and (pend or not (func or fd)):
+                    toks.append("F"); pend = 0
+                toks.append(t)
+                if t[0] == "O":
+                    func = t[1] == "1"
+                else:
+                    fd = t[1] == "1"
+        return " ".join(toks)
+    for _ in range(4000 if quick else 150000):
+        if rnd.random() < 0.8:
+            kinds["sink_mix"] = kinds.get("sink_mix", 0) + 1
+            yield mixed_history(True)
+        else:
+            kinds["sink_change_pending"] = kinds.get("sink_change_pending", 0) + 1
+            yield mixed_history(False)
     for _ in range(200 if quick else 2000):
         kinds["no_sink"] += 1
         yield random_history("n") + rnd.choice(["", " O R5:1 F", " D R9:3", " O"])
@@ -194,7 +266,7 @@ def classify(case, obs):
             c = int(t[1:]); cap, pend = c, 0
             sig.append(("B", 0 if c == 0 else 1 if c == 1 else 2))
         elif k in "FOD":
-            sig.append((k, pend > 0)); pend = 0 if k == "F" else pend
+            sig.append((t, pend > 0)); pend = 0 if k == "F" else pend
         else:
             ln = _oplen(t)
             wrote = wrote or ln > 0
